@@ -39,6 +39,8 @@ Protos == { <<"icmp", "", FALSE>>, <<"icmp", "", TRUE>>, <<"udp", "", FALSE>>, <
 (* C15: all-or-error with exact counts: every subset of failing runs/probes, completion orders via per-flow delays *)
 FaultSets(n) == {<<>>} \cup { <<[op |-> "write", k |-> 1, class |-> "fatal", run |-> r]>> : r \in 1..n }
                 \cup { <<[op |-> "read", k |-> 2, class |-> "fatal", run |-> r]>> : r \in 1..n }
+                \* a failed write whose cause has the type the drivers use for "no packet yet" is still a failed write
+                \cup { <<[op |-> "write", k |-> 1, class |-> "typed", run |-> r]>> : r \in 1..n }
                 \cup (IF n >= 3 THEN { <<[op |-> "write", k |-> 2, class |-> "fatal", run |-> 1], [op |-> "newsource", k |-> 1, class |-> "fatal", run |-> 3]>>,
                                        <<[op |-> "setfilter", k |-> 1, class |-> "fatal", run |-> 2], [op |-> "read", k |-> 1, class |-> "zero", run |-> n]>> }
                       ELSE {})
@@ -150,21 +152,27 @@ C11All(u) ==
 (* C17 over the wire: routers carrying private / boundary addresses, through RunTraceroute and the HTTP handler, with and *)
 (* without reverse-DNS enrichment (stub resolver returning names for private addresses too)                                *)
 PrivRouters == << "10.0.0.1", "172.16.0.1", "172.32.0.1", "192.168.255.255", "192.169.0.0", "9.255.255.255" >>
-C17Run(pr, via, skip, rdns) ==
-    [id |-> "C17/run/" \o pr[1] \o pr[2] \o "/" \o via \o "/" \o (IF skip THEN "skip" ELSE "keep") \o (IF rdns THEN "/rdns" ELSE ""),
-     label |-> "wire/" \o pr[1] \o pr[2] \o "/" \o via \o (IF skip THEN "" ELSE "/keep") \o (IF rdns THEN "/rdns" ELSE ""),
+\* sil: the TTL that stays unanswered (an empty hop BEFORE private hops when sil = 2); sp: the spelling of the boolean query parameters
+\* (everything strconv.ParseBool accepts means the same)
+TrueSp == <<"true", "1", "t", "T", "TRUE", "True">>
+FalseSp == <<"false", "0", "f", "F", "FALSE", "False">>
+RoutersAt(sil) == [t \in 1..7 |-> IF t = sil THEN "" ELSE IF t < sil THEN PrivRouters[t] ELSE PrivRouters[t - 1]]
+PrivAt(sil) == LET pv == <<TRUE, TRUE, FALSE, TRUE, FALSE, FALSE>> IN [t \in 1..7 |-> IF t = sil THEN FALSE ELSE IF t < sil THEN pv[t] ELSE pv[t - 1]]
+C17Run(pr, via, skip, rdns, sil, sp) ==
+    [id |-> "C17/run/" \o pr[1] \o pr[2] \o "/" \o via \o "/" \o (IF skip THEN "skip" ELSE "keep") \o (IF rdns THEN "/rdns" ELSE "") \o "/sil" \o ToString(sil) \o "/sp" \o ToString(sp),
+     label |-> "wire/" \o pr[1] \o pr[2] \o "/" \o via \o (IF skip THEN "" ELSE "/keep") \o (IF rdns THEN "/rdns" ELSE "") \o "/sil" \o ToString(sil) \o "/sp" \o ToString(sp),
      kind |-> "run", sack_perm |-> TRUE, isn32 |-> <<4660, 1>>,
-     extra |-> [expect17 |-> [skip |-> skip, rdns |-> rdns,
-                              routers |-> PrivRouters, private |-> <<TRUE, TRUE, FALSE, TRUE, FALSE, FALSE>>]],
+     extra |-> [expect17 |-> [skip |-> skip, rdns |-> rdns, routers |-> RoutersAt(sil), private |-> PrivAt(sil)]],
      run |-> [Run(pr[1], pr[2], FALSE, 1, 8, 2, 1) EXCEPT !.skip_private = skip, !.reverse_dns = rdns, !.via = via,
                 !.dns = [x \in {"*"} |-> "name-of-hop"],
                 !.query = "target=" \o T4 \o "&protocol=" \o pr[1] \o "&tcp-method=" \o pr[2] \o "&port=443&max-ttl=8&timeout=300&traceroute-queries=2&e2e-queries=1"
-                          \o "&skip-private-hops=" \o (IF skip THEN "true" ELSE "false") \o "&reverse-dns=" \o (IF rdns THEN "true" ELSE "false")],
+                          \o "&skip-private-hops=" \o (IF skip THEN TrueSp[sp] ELSE FalseSp[sp]) \o "&reverse-dns=" \o (IF rdns THEN TrueSp[sp] ELSE FalseSp[sp])],
      path |-> PathOf([t \in 1..8 |->
                 IF t = 8 THEN (IF pr[1] = "tcp" THEN <<[form |-> "sack", delay_us |-> 9000], [form |-> "synack", delay_us |-> 9000]>> ELSE <<[form |-> DestFormOf(pr[1], ""), delay_us |-> 9000]>>)
-                ELSE IF t = 7 THEN <<>> ELSE <<[form |-> "te", from |-> PrivRouters[t], delay_us |-> 1000 * t]>>])]
-C17All(u) == { C17Run(pr, via, sk, rd) : pr \in {<<"icmp", "", FALSE>>, <<"udp", "", FALSE>>, <<"tcp", "syn", FALSE>>, <<"tcp", "sack", FALSE>>},
-                 via \in {"lib", "http"}, sk \in BOOLEAN, rd \in BOOLEAN }
+                ELSE IF t = sil THEN <<>> ELSE <<[form |-> "te", from |-> RoutersAt(sil)[t], delay_us |-> 1000 * t]>>])]
+C17All(u) == { C17Run(pr, via, sk, rd, sil, 1) : pr \in {<<"icmp", "", FALSE>>, <<"udp", "", FALSE>>, <<"tcp", "syn", FALSE>>, <<"tcp", "sack", FALSE>>},
+                 via \in {"lib", "http"}, sk \in BOOLEAN, rd \in BOOLEAN, sil \in {2, 7} }
+             \cup { C17Run(<<"icmp", "", FALSE>>, "http", sk, rd, 2, sp) : sk \in BOOLEAN, rd \in BOOLEAN, sp \in 2..6 }
 
 ---------------------------------------------------------------------------
 (* Server.tla in one place: the HTTP surface (server/server.go). Not one of the listed properties: evaluated as an extra  *)
